@@ -1,105 +1,112 @@
-(* C07 -- hand-written executable model, for every size n, of LUDecomp::exe (Crout factorisation with the
-   permutation vector, pivot kept when > 0.1 cmax and > eps, null-pivot test) and of the permuted forward / back
-   substitution of LUSolve::back_substitute / TinyMatrixSolveBase::back_substitute, over exact rationals.
-   Definitions only; executed by vm_compute as the exact reference for the real code on rational matrices. *)
-From Coq Require Import QArith Qabs List Bool Arith.
+(* C07 -- hand-written executable model, for every size n and over any scalar type F with field operations, of
+     LUDecomp::exe          (include/TFEL/Math/LU/LUDecomp.ixx: Crout factorisation in place with the permutation
+                             vector, pivot kept when > 0.1 cmax and > eps, null-pivot test),
+     back_substitute        (LUSolve::back_substitute, TinyMatrixSolveBase::back_substitute for vector and
+                             tmatrix<N,M> right-hand sides: permuted forward / back substitution, the Tiny version
+                             re-tests the pivots against eps),
+     TinyMatrixInvert::exe  (decomposition, then back substitution of every column of the identity).
+   Matrices are functions nat -> nat -> F updated entry by entry in the order of the C++ loops.  The branches
+   `p.isIdentity()` of the C++ are the specialisation p = id of the permuted branches (same operations in a field).
+   Definitions only.  The model is instantiated on Qc (exact rationals, executed by vm_compute as the reference for
+   the real code) and on R (theorems of C07LU.v hold for any field). *)
+From Coq Require Import List Bool Arith.
 Import ListNotations.
-Local Open Scope Q_scope.
 
-Definition mat := list (list Q).
-Definition get (m : mat) (i j : nat) : Q := nth j (nth i m []) 0.
-Fixpoint upd {A} (l : list A) (i : nat) (f : A -> A) : list A :=
-  match l, i with
-  | [], _ => []
-  | x :: r, O => f x :: r
-  | x :: r, S i' => x :: upd r i' f
-  end.
-(* values are kept in lowest terms (Qred) so that exact arithmetic stays small *)
-Definition set (m : mat) (i j : nat) (v : Q) : mat := upd m i (fun row => upd row j (fun _ => Qred v)).
-Definition pget (p : list nat) (i : nat) : nat := nth i p 0%nat.
-Definition pswap (p : list nat) (i j : nat) : list nat :=
-  let a := pget p i in let b := pget p j in upd (upd p i (fun _ => b)) j (fun _ => a).
-Definition Qltb (a b : Q) : bool := negb (Qle_bool b a).
-Definition sumk (k : nat) (f : nat -> Q) : Q := fold_left (fun acc l => Qred (acc + f l)) (seq 0 k) 0.
+Section Model.
+  Variable F : Type.
+  Variables (f0 f1 : F) (fadd fmul fsub fdiv : F -> F -> F).
+  (* |.|, strict comparison, the constant 0.1 of the pivot rule *)
+  Variables (fabs : F -> F) (fltb : F -> F -> bool) (c01 : F).
 
-(* one step i of LUDecomp::exe; None = null pivot reported *)
-Definition lu_step (n : nat) (eps : Q) (st : mat * list nat) (i : nat) : option (mat * list nat) :=
-  let '(m, p) := st in
-  (* L update (column i) *)
-  let m := fold_left (fun m j =>
-             let pj := pget p j in
-             set m pj i (get m pj i - sumk i (fun k => get m pj k * get m (pget p k) i)))
-           (seq i (n - i)) m in
-  (* search for pivot *)
-  let '(cmax, piv) := fold_left (fun '(cmax, piv) j =>
-                         let v := Qabs (get m (pget p j) i) in
-                         if Qltb cmax v then (v, j) else (cmax, piv))
-                       (seq (S i) (n - S i)) (Qabs (get m (pget p i) i), i) in
-  let d := Qabs (get m (pget p i) i) in
-  let p := if Nat.eqb piv i then p
-           else if Qltb ((1 # 10) * cmax) d && Qltb eps d then p else pswap p piv i in
-  if Qltb (Qabs (get m (pget p i) i)) eps then None
-  else
-    let pi := pget p i in
-    (* U update (row i) *)
-    let m := fold_left (fun m j =>
-               set m pi j ((get m pi j - sumk i (fun k => get m pi k * get m (pget p k) j)) / get m pi i))
-             (seq (S i) (n - S i)) m in
-    Some (m, p).
+  Definition matF := nat -> nat -> F.
+  Definition mset (m : matF) (i j : nat) (v : F) : matF :=
+    fun i' j' => if Nat.eqb i' i && Nat.eqb j' j then v else m i' j'.
+  (* Permutation::swap / TinyPermutation::swap *)
+  Definition pswap (p : nat -> nat) (i j : nat) : nat -> nat :=
+    fun k => if Nat.eqb k i then p j else if Nat.eqb k j then p i else p k.
+  (* v = 0; for (k = 0; k != n; ++k) v += f(k) *)
+  Definition sumk (n : nat) (f : nat -> F) : F := fold_left (fun acc k => fadd acc (f k)) (seq 0 n) f0.
+  (* v = 0; for (j = i; j != n; ++j) v += f(j) *)
+  Definition sumr (i n : nat) (f : nat -> F) : F := fold_left (fun acc k => fadd acc (f k)) (seq i (n - i)) f0.
 
-Definition lu_decomp (n : nat) (eps : Q) (a : mat) : option (mat * list nat) :=
-  fold_left (fun st i => match st with Some s => lu_step n eps s i | None => None end) (seq 0 n) (Some (a, seq 0 n)).
+  (* ---- LUDecomp::exe, step i *)
+  (* L update: for (j = i; j != n; ++j) m(p(j), i) -= sum_{k<i} m(p(j), k) * m(p(k), i) *)
+  Definition lu_Lupdate (n i : nat) (m : matF) (p : nat -> nat) : matF :=
+    fold_left (fun m j => let pj := p j in
+                 mset m pj i (fsub (m pj i) (sumk i (fun k => fmul (m pj k) (m (p k) i)))))
+              (seq i (n - i)) m.
+  (* search for pivot: (cmax, piv) *)
+  Definition lu_search (n i : nat) (m : matF) (p : nat -> nat) : F * nat :=
+    fold_left (fun '(cmax, piv) j => let v := fabs (m (p j) i) in if fltb cmax v then (v, j) else (cmax, piv))
+              (seq (S i) (n - S i)) (fabs (m (p i) i), i).
+  Definition lu_perm (n : nat) (eps : F) (i : nat) (m : matF) (p : nat -> nat) : nat -> nat :=
+    let '(cmax, piv) := lu_search n i m p in
+    let d := fabs (m (p i) i) in
+    if Nat.eqb piv i then p
+    else if fltb (fmul c01 cmax) d && fltb eps d then p else pswap p piv i.
+  (* U update: for (j = i+1; j != n; ++j) m(pi, j) = (m(pi, j) - sum_{k<i} m(pi, k) * m(p(k), j)) / m(pi, i) *)
+  Definition lu_Uupdate (n i : nat) (m : matF) (p : nat -> nat) : matF :=
+    let pi := p i in
+    fold_left (fun m j => mset m pi j (fdiv (fsub (m pi j) (sumk i (fun k => fmul (m pi k) (m (p k) j)))) (m pi i)))
+              (seq (S i) (n - S i)) m.
+  (* None = null pivot reported *)
+  Definition lu_step (n : nat) (eps : F) (st : matF * (nat -> nat)) (i : nat) : option (matF * (nat -> nat)) :=
+    let '(m, p) := st in
+    let m1 := lu_Lupdate n i m p in
+    let p1 := lu_perm n eps i m1 p in
+    if fltb (fabs (m1 (p1 i) i)) eps then None else Some (lu_Uupdate n i m1 p1, p1).
+  Definition lu_steps (n : nat) (eps : F) (l : list nat) (st : option (matF * (nat -> nat))) :=
+    fold_left (fun st i => match st with Some s => lu_step n eps s i | None => None end) l st.
+  Definition lu_decomp (n : nat) (eps : F) (a : matF) : option (matF * (nat -> nat)) :=
+    lu_steps n eps (seq 0 n) (Some (a, fun k => k)).
 
-Definition vget (v : list Q) (i : nat) : Q := nth i v 0.
-Definition vset (v : list Q) (i : nat) (x : Q) : list Q := upd v i (fun _ => Qred x).
+  (* ---- back_substitute with a right-hand side of M columns (M = 1: the vector overloads).
+     chk = true: the pivot tests of TinyMatrixSolveBase::back_substitute (LUSolve::back_substitute has none) *)
+  Definition bs_forward (n M : nat) (eps : F) (chk : bool) (m : matF) (p : nat -> nat) (b : matF) : option matF :=
+    fold_left (fun st i =>
+                 match st with
+                 | None => None
+                 | Some x =>
+                   let pi := p i in
+                   if chk && fltb (fabs (m pi i)) eps then None
+                   else Some (fold_left (fun x' k =>
+                                mset x' pi k (fdiv (fsub (x pi k) (sumk i (fun j => fmul (m pi j) (x (p j) k)))) (m pi i)))
+                              (seq 0 M) x)
+                 end) (seq 0 n) (Some b).
+  Definition bs_backward (n M : nat) (m : matF) (p : nat -> nat) (x b : matF) : matF :=
+    let b0 := fold_left (fun b' k => mset b' (n - 1) k (x (p (n - 1)) k)) (seq 0 M) b in
+    fold_left (fun b' i' =>
+                 let i := n - 1 - i' in            (* i = n-1 .. 1 *)
+                 let pi2 := i - 1 in
+                 let pi := p pi2 in
+                 fold_left (fun b'' k => mset b'' pi2 k (fsub (x pi k) (sumr i n (fun j => fmul (m pi j) (b' j k)))))
+                           (seq 0 M) b')
+              (seq 0 (n - 1)) b0.
+  Definition back_substitute (n M : nat) (eps : F) (chk : bool) (m : matF) (p : nat -> nat) (b : matF) : option matF :=
+    match bs_forward n M eps chk m p b with
+    | None => None
+    | Some x => Some (bs_backward n M m p x b)
+    end.
 
-(* LUSolve::back_substitute; check_eps = true adds the pivot tests of TinyMatrixSolveBase::back_substitute *)
-Definition back_substitute (n : nat) (eps : Q) (check_eps : bool) (m : mat) (p : list nat) (b : list Q) : option (list Q) :=
-  let fw := fold_left (fun st i =>
-              match st with
-              | None => None
-              | Some x =>
-                let pi := pget p i in
-                if check_eps && Qltb (Qabs (get m pi i)) eps then None
-                else Some (vset x pi ((vget x pi - sumk i (fun j => get m pi j * vget x (pget p j))) / get m pi i))
-              end) (seq 0 n) (Some b) in
-  match fw with
-  | None => None
-  | Some x =>
-    let b := vset b (n - 1) (vget x (pget p (n - 1))) in
-    Some (fold_left (fun b i' =>
-            let i := (n - 1 - i')%nat in       (* i = n-1 .. 1 *)
-            let pi2 := (i - 1)%nat in
-            let pi := pget p pi2 in
-            vset b pi2 (vget x pi - fold_left (fun acc j => Qred (acc + get m pi j * vget b j)) (seq i (n - i)) 0))
-          (seq 0 (n - 1)) b)
-  end.
+  (* TinyMatrixSolve<N>::exe(m, tmatrix<N,M>& b, eps) for N > 3 *)
+  Definition lu_solve_mat (n M : nat) (eps : F) (chk : bool) (a b : matF) : option matF :=
+    match lu_decomp n eps a with
+    | None => None
+    | Some (m, p) => back_substitute n M eps chk m p b
+    end.
+  (* LUSolve::exe (chk = false), TinyMatrixSolve<N>::exe(m, b, eps) (chk = true): vector right-hand side *)
+  Definition lu_solve (n : nat) (eps : F) (chk : bool) (a : matF) (b : nat -> F) : option (nat -> F) :=
+    match lu_solve_mat n 1 eps chk a (fun r _ => b r) with
+    | None => None
+    | Some x => Some (fun r => x r 0)
+    end.
+  (* TinyMatrixInvert<N>::exe: column i of the result = back substitution of the i-th unit vector *)
+  Definition lu_invert (n : nat) (eps : F) (a : matF) : option matF :=
+    lu_solve_mat n n eps true a (fun i j => if Nat.eqb i j then f1 else f0).
 
-Definition lu_solve (n : nat) (eps : Q) (check_eps : bool) (a : mat) (b : list Q) : option (list Q) :=
-  match lu_decomp n eps a with
-  | None => None
-  | Some (m, p) => back_substitute n eps check_eps m p b
-  end.
-
-(* exact residual test used by the harness on the model's own answers *)
-Definition mat_vec (a : mat) (x : list Q) : list Q :=
-  map (fun row => fold_left Qplus (map (fun '(u, v) => u * v) (combine row x)) 0) a.
-Definition solves_exactly (a : mat) (b x : list Q) : bool :=
-  forallb (fun '(u, v) => Qeq_bool u v) (combine (mat_vec a x) b) && Nat.eqb (length x) (length b).
-(* result printed in lowest terms, with the exact check *)
-Definition run (n : nat) (a : mat) (b : list Q) :=
-  match lu_solve n (1 # 1000000000000000000000000000000) true a b with
-  | None => (false, true, [])
-  | Some x => (true, solves_exactly a b x, map Qred x)
-  end.
-Definition run_eps (n : nat) (eps : Q) (a : mat) (b : list Q) :=
-  match lu_solve n eps true a b with
-  | None => (false, true, [])
-  | Some x => (true, solves_exactly a b x, map Qred x)
-  end.
-(* verdict of the factorisation alone (TinyMatrixInvert) *)
-Definition run_inv (n : nat) (eps : Q) (a : mat) (b : list Q) :=
-  match lu_decomp n eps a with
-  | None => (false, true, @nil Q)
-  | Some _ => (true, true, [])
-  end.
+  (* conversions used by the harness *)
+  Definition mat_of_list (l : list (list F)) : matF := fun i j => nth j (nth i l []) f0.
+  Definition vec_of_list (l : list F) : nat -> F := fun i => nth i l f0.
+  Definition list_of_vec (n : nat) (x : nat -> F) : list F := map x (seq 0 n).
+  Definition list_of_mat (n M : nat) (x : matF) : list F := flat_map (fun i => map (x i) (seq 0 M)) (seq 0 n).
+End Model.
